@@ -8,7 +8,7 @@ between the first and the second half of the stream.
 from __future__ import annotations
 
 from vf.gen import hdlc_gen, p1_gen, splits
-from vf.mon import deepsize, hdlc_mon, p1_mon
+from vf.mon import clock, deepsize, hdlc_mon, p1_mon
 from vf.ref import p1_ref
 
 ID = "C19"
@@ -19,7 +19,7 @@ RULE = (
     "run = (reader, pattern, chunk size): HDLC patterns {all flags, flag + short junk, flag + lone escape, valid frames back to back (two flags / one shared flag), never-ending frame, "
     "frame longer than its length field followed by endless flags, random bytes} under two configurations; P1 patterns {'/' ident lines without '!', '/' + bytes without LF, '////..' and '/abc/abc..' without LF, "
     "ident line + endless data lines, ident line + endless bytes without LF, ever-changing '/' lines, valid readouts back to back, random ASCII, random bytes, text without '/' and LF}; chunk sizes {1 (first 128 KiB), 64, 4096, 65536} and delimiter-aligned calls (ending right after every LF / 7th LF for P1, every flag / 7th flag for HDLC); stream length 1 MiB (quick) / 16 MiB (thorough). "
-    f"oracle: deep size after read() <= {HDLC_CONST} (HDLC) / {P1_CONST} (P1) + 3 x chunk bytes at every sample, and max over the second half <= 1.25 x max over the first half + chunk + 1 KiB (jittered sampling, so that a bounded saw-tooth is not mistaken for growth). "
+    f"oracle: deep size after read() <= {HDLC_CONST} (HDLC) / {P1_CONST} (P1) + 3 x chunk bytes at every sample, and max over the second half <= max(1.25 x max over the first half + chunk + 1 KiB, a quarter of the constant + chunk) (jittered sampling and a floor, so that a bounded saw-tooth or a few spiky long messages are not mistaken for growth). "
     "evaluations = read() calls made; distinct non-trivial = distinct (reader, configuration, pattern, chunk size) runs with >= 16 size samples."
 )
 ASSUMPTIONS = [
@@ -29,7 +29,7 @@ ASSUMPTIONS = [
 WATCHDOG_S = {"quick": 900, "thorough": 7200}
 
 HDLC_PATTERNS = ("all_flags", "flag_short_junk", "flag_lone_escape", "valid_frames", "never_ending_frame", "random_bytes", "overlong_frame_then_flags",
-                 "single_flag_between_frames", "escaped_pairs_forever", "escape_fill_forever", "valid_frames_with_segmentation_bit")
+                 "single_flag_between_frames", "escaped_pairs_forever", "escape_fill_forever", "valid_frames_with_segmentation_bit", "tiny_length_header_then_frames")
 P1_PATTERNS = ("ident_lines_without_end", "slash_without_lf", "ident_then_endless_data", "valid_readouts", "random_ascii", "random_bytes", "text_without_slash_and_lf",
                "slashes_without_lf", "slash_words_without_lf", "ident_then_no_lf", "varying_slash_lines")
 CHUNKS = (1, 64, 4096, 65536, "delim1", "delim7")  # delimN: a call ends right after every N-th LF (P1) / flag (HDLC)
@@ -69,6 +69,14 @@ def make_stream(rng, reader: str, cfg, pattern: str, total: int) -> bytes:
         if pattern == "overlong_frame_then_flags":
             # a frame that is already longer than its length field says, followed by endless flag fill
             return (b"\x7e\xa0\x08\x01\x02\x01\x10" + bytes(rng.randrange(0x80) for _ in range(39)) + b"\x7e" * total)[:total]
+        if pattern == "tiny_length_header_then_frames":
+            from vf.ref import fcs16 as _f
+
+            ln = rng.choice((1, 2, 3, 4, 5, 6))
+            header = bytes((0xA0, ln, 0x03, 0x21, 0x13))
+            ids = hdlc_gen.IdSource(rng)
+            unit = b"\x7e".join(hdlc_gen.on_wire(hdlc_gen.good_frame(rng, ids, max_info=100, want_info=True)[0], cfg[0]) for _ in range(200)) + b"\x7e"
+            return (b"\x7e" + header + _f.trailer(header) + unit * (total // len(unit) + 1))[:total]
         if pattern == "valid_frames_with_segmentation_bit":
             from vf.ref import hdlc_ref as _h
 
@@ -153,6 +161,8 @@ def one_run(spec: dict, ctx) -> None:
     returned = 0
     case = dict(spec)
     for i in range(n_calls):
+        if i % 97 == 0:
+            clock.tick()
         try:
             msgs = reader.read(chunks_list[i] if chunks_list is not None else stream[i * chunk : (i + 1) * chunk])
             returned += len(msgs)
@@ -183,7 +193,7 @@ def one_run(spec: dict, ctx) -> None:
         )
     half = len(samples) // 2
     first, second = max(s for _, s in samples[:half] or samples), max(s for _, s in samples[half:])
-    if second > first * 1.25 + chunk + 1024:
+    if second > max(first * 1.25 + chunk + 1024, const / 4 + chunk):
         ctx.violation(
             f"C19:growing:{label}",
             f"max deep size over the first half {first} bytes, over the second half {second} bytes (chunk {chunk}) - retained memory grows with the amount of data fed",
